@@ -2,7 +2,7 @@
 """Regenerates MANIFEST.json from the table below (single source of truth for the check registry)."""
 import json
 props = [json.loads(l) for l in open('/verif/properties.jsonl')]
-SEQ = "Explicit-state model checking whose transition function is the real crate: breadth-first search over operation histories (create / poll with waker A|B / drop / primitive operations) replayed on the real primitive; the joint state (implementation snapshot through the read-only hook + harness slot state + monitor ghost state) is de-duplicated and the search runs to the fixpoint of the bounded system; the property's monitor is evaluated after every transition"
+SEQ = "Explicit-state model checking whose transition function is the real crate: breadth-first search over operation histories (create / poll with waker A|B / drop / primitive operations) replayed on the real primitive; the joint state (implementation snapshot through the read-only hook + harness slot state + monitor ghost state) is de-duplicated and the search runs to the fixpoint of the bounded system; the property's monitor is evaluated after every transition. Scripted members of the same search (one operation = one fixed life cycle on a fresh primitive, every step checked) vary what the fixpoint configurations hold constant: waiter counts around 2^8 and 2^16, channel capacities up to 100, payload sizes up to 64 KiB, request sizes up to usize::MAX, every whole-millisecond delay up to 20 s, the shape of the wakers, a clock that advances during a call, guards dropped by the unwinder"
 DS = "Exhaustive operation-sequence enumeration on the real container code: breadth-first search over all sequences that respect the documented preconditions (list/heap: to the fixpoint over structure shapes; ring buffers: every sequence up to the length bound, no merging), reference model and structural validator evaluated after every operation"
 TYPE = "Exhaustive enumeration of the finite abstract type-configuration matrix (type constructor x lock class x payload class x buffer class x {Send,Sync,Unpin}, plus method result/receiver pairs) evaluated by one program compiled against the current tree; mechanical rule-table oracle. The evaluator is the trait solver, not an execution, hence category 'other'"
 LOOMX = "; thread schedules of the thread-safe flavours are additionally explored with loom (DPOR over the real generic code instantiated with a loom-backed RawMutex) up to the stated preemption bound"
@@ -11,7 +11,7 @@ T = {
  "C02": ("E-SEQ", "model_checking", SEQ, "k live lock futures (3/4-5), both fairness modes, local and parking_lot flavour", "explicit-state BFS over the real implementation to a fixpoint"),
  "C03": ("E-SEQ", "model_checking", SEQ + ", plus a deterministic drain closure (drop guards, re-poll woken futures) evaluated from every reachable state", "as C02; wake-ups are observed through counting wakers (two per slot)", "explicit-state BFS to a fixpoint + per-state liveness closure"),
  "C04": ("E-SEQ", "model_checking", SEQ, "as C02, fair mode", "explicit-state BFS over the real implementation to a fixpoint"),
- "C05": ("E-SEQ", "model_checking", SEQ, "k=3 live acquire futures, request sizes within {0..3}, permit cap 3-5, <=1-2 extra try_acquire releasers; borrowed local/parking_lot and shared flavour", "explicit-state BFS over the real implementation to a fixpoint; ledger monitor"),
+ "C05": ("E-SEQ", "model_checking", SEQ, "k=3 live acquire futures, request sizes within {0..3} plus the witnesses 2^32+2 and usize::MAX, permit cap 3-5, <=1-2 extra try_acquire releasers; borrowed local/parking_lot and shared flavour (the shared one also with every user handle dropped)", "explicit-state BFS over the real implementation to a fixpoint; ledger monitor"),
  "C06": ("E-SEQ", "model_checking", SEQ + ", plus a deterministic drain closure (return all permits, re-poll woken futures) evaluated from every reachable state", "as C05", "explicit-state BFS to a fixpoint + per-state liveness closure"),
  "C07": ("E-SEQ", "model_checking", SEQ, "as C05, fair mode", "explicit-state BFS over the real implementation to a fixpoint"),
  "C08": ("E-SEQ", "model_checking", SEQ + "; values are uniquely tagged and drop-counted; every state is additionally torn down (all futures, handles and the channel dropped) to check the exactly-once drop count", "2-3 send + 1-2 receive slots + optional stream, 3-4 values, capacities 0/1/2, array/fixed-heap/growing-heap buffers, borrowed and shared handles", "explicit-state BFS to a fixpoint + per-state teardown; tagged drop-counting values"),
@@ -21,12 +21,12 @@ T = {
  "C12": ("E-SEQ", "model_checking", SEQ, "k=3 (4) receive futures, 2 sends, borrowed local/parking_lot and shared", "explicit-state BFS over the real implementation to a fixpoint"),
  "C13": ("E-SEQ", "model_checking", SEQ, "k=2-3 receive futures, 3-4 sends, requested ids drawn from all ids observed so far, borrowed and shared", "explicit-state BFS over the real implementation to a fixpoint; publication-log monitor"),
  "C14": ("E-SEQ", "model_checking", SEQ, "k=3 (4-5) wait futures, initial state set/unset", "explicit-state BFS over the real implementation to a fixpoint; per-waiter latch monitor"),
- "C15": ("E-SEQ", "model_checking", SEQ + "; the clock is a harness-owned MockClock", "k=3 (4) timer futures, deadlines from a 3-value set incl. duplicates, delay 0/1/MAX, clock span 4; the 'randomized long histories' clause is replaced by the exhaustive heap exploration of C20 (sampling is outside this family)", "explicit-state BFS over the real implementation to a fixpoint; sorted-multiset monitor"),
+ "C15": ("E-SEQ", "model_checking", SEQ + "; the clock is a harness-owned MockClock", "k=3 (4) timer futures, deadlines from a 3-value set incl. duplicates, delay 0/1/MAX, clock span 4; the 'randomized long histories' clause is replaced by the exhaustive heap exploration of C20 and by scripted histories with up to 65538 timers (sampling is outside this family); delay(d) is swept over every whole millisecond up to 20 s, sub-millisecond remainders and the neighbourhood of every power of two up to 2^70 ms", "explicit-state BFS over the real implementation to a fixpoint; sorted-multiset monitor"),
  "C16": ("E-TYPE", "other", TYPE, "one witness per (Send,Sync) class of each parameter; verdict cells are those of the NoopLock and parking_lot lock witnesses; rustc's trait solver and the rule table are trusted", "exhaustive enumeration of a finite type-configuration matrix (compile-time trait facts) with rule-table oracle"),
  "C17": ("E-SEQ", "model_checking", SEQ + ". is_terminated() is compared with the harness slot state for every live future after every operation of every system; poll-after-completion is explored as an explicit operation and must panic; stream items go through the same FIFO monitor as receives", "all systems of C01-C15", "explicit-state BFS over the real implementation to a fixpoint (piggy-backed on every system)"),
  "C18": ("E-SEQ", "model_checking", SEQ + ". A counting global allocator is armed only inside library calls; every transition of every system must show zero allocations and frees (GrowingHeapBuf: push paths may allocate)", "the harness keeps an uncounted reference to shared state, so the final deallocation (destruction, exempt) never happens inside a counted call; wakers and payloads are non-allocating by construction", "explicit-state BFS over the real implementation with a counting allocator armed around every library call"),
- "C19": ("E-DS", "model_checking", DS, "capacities 0..4, all push/pop sequences up to length 12 (quick) / 16 (thorough), drop-counting elements, buffer dropped at the end of every sequence", "exhaustive sequence enumeration against a VecDeque reference"),
- "C20": ("E-DS", "model_checking", DS, "list: 5 (7) nodes; heap: 5 nodes x all 243 key vectors over {0,1,2} (thorough: 6 nodes x 729 vectors, 7 nodes for four key vectors)", "exhaustive sequence enumeration to a fixpoint over structure shapes; structural validator + reference model"),
+ "C19": ("E-DS", "model_checking", DS, "capacities 0..4, all push/pop sequences up to length 12 (quick) / 16 (thorough), drop-counting elements, buffer dropped at the end of every sequence; the same with a zero-sized drop-counting element and with user RealArray types that carry an alignment attribute or a trailing field; scripted fill/rotate/drain cycles for capacities 63, 64, 70, 96 (user newtype), 128 and 65536", "exhaustive sequence enumeration against a VecDeque reference"),
+ "C20": ("E-DS", "model_checking", DS, "list: 5 (7) nodes; heap: 5 nodes x all 243 key vectors over {0,1,2} (thorough: 6 nodes x 729 vectors, 7 nodes for four key vectors); scripted heaps of 1000 and 65538 nodes (ascending / descending / equal / zig-zag keys) on a 256 KiB stack", "exhaustive sequence enumeration to a fixpoint over structure shapes; structural validator + reference model"),
 }
 checks = []
 LOOM_PROPS = {"C01", "C02", "C03", "C04", "C07", "C05", "C06", "C08", "C09", "C10", "C11", "C12", "C13", "C14", "C15", "C16", "C17", "C18"}
